@@ -358,6 +358,36 @@ fn check_echo(data: &[u8]) -> Result<(), Failure> {
     Ok(())
 }
 
+/// McGroupStatusReq built bit by bit: `req_group(g)` adds one group to whatever the mask holds
+/// (`req_group_mask(m)` before it or not); the parsed mask is the union, nothing else in the octet moves.
+fn check_req_group(mask: Option<u8>, groups: &[u8]) -> Result<(), Failure> {
+    let case = json!({"kind":"req_group","mask":mask,"groups":groups});
+    let r = catch(|| {
+        let mut c = McGroupStatusReqCreator::new();
+        if let Some(m) = mask {
+            c.req_group_mask(m);
+        }
+        for g in groups {
+            c.req_group(*g);
+        }
+        c.build().to_vec()
+    });
+    let bytes = match r {
+        Ok(b) => b,
+        Err(pm) => return Err(Failure::panic(case, &pm)),
+    };
+    let want_mask = groups.iter().fold(mask.unwrap_or(0) & 0x0F, |m, g| m | 1 << (g & 3));
+    let want = vec![0x01u8, want_mask];
+    let parsed = match parse_downlink_multicast_commands(&bytes).next() {
+        Some(Ok(DownlinkRemoteSetup::McGroupStatusReq(p))) => Some(p.req_group_mask()),
+        _ => None,
+    };
+    if bytes != want || parsed != Some(want_mask) {
+        return Err(Failure::new("roundtrip-field", case, format!("McGroupStatusReq built {} and parses back as mask {parsed:?}; want {} / {want_mask:#04x}", hex(&bytes), hex(&want))).with_fp("roundtrip-field/McGroupStatusReq.req_group"));
+    }
+    Ok(())
+}
+
 fn check_cert_fixed(rx_app_cnt: u16, versions: [u8; 12]) -> Result<(), Failure> {
     let case = json!({"kind":"cert_fixed","rx_app_cnt":rx_app_cnt,"versions":hex(&versions)});
     let r = catch(|| {
@@ -637,6 +667,12 @@ macro_rules! text_wire_value {
         let s = x.to_string();
         let want_s = msb_hex(v as u128, $n);
         let back = <$ty>::from_str(&want_s).ok().map(|y| (y.value(), y.as_wire_bytes().to_vec()));
+        // the value conversions (From<int> / Into<int>) name the same wire value
+        let via_from: $ty = <$ty>::from(v);
+        let via_into: $int = <$int>::from(x);
+        if via_from.as_wire_bytes().to_vec() != want_wire || via_into != v {
+            return Err(Failure::new("text-roundtrip", json!({"kind":"text","type":$name,"value":format!("{:#x}", v)}), format!("{}: From<int> gives wire {}, Into<int> gives {:#x}; want wire {} / value {:#x}", $name, hex(via_from.as_wire_bytes()), via_into, hex(&want_wire), v)).with_fp(format!("value-conversion/{}", $name)));
+        }
         if x.as_wire_bytes().to_vec() != want_wire || s != want_s || back != Some((v, want_wire.clone())) || x.value() != v {
             Err(Failure::new("text-roundtrip", json!({"kind":"text","type":$name,"value":format!("{:#x}", v)}), format!("{}: wire {} (want {}), display {s} (want {want_s}), parse-back {back:?}", $name, hex(x.as_wire_bytes()), hex(&want_wire))).with_fp(format!("text-roundtrip/{}", $name)))
         } else {
@@ -688,8 +724,36 @@ fn check_text(ty: &str, v: u128) -> Result<(), Failure> {
             "NetId" => text_wire_value!("NetId", NetId, u32, 3, (v as u32) & 0xFF_FFFF),
             "DevEui" => text_wire_value!("DevEui", DevEui, u64, 8, v as u64),
             "JoinEui" => text_wire_value!("JoinEui", JoinEui, u64, 8, v as u64),
-            "keys::DevEui" => text_eui!("keys::DevEui", keys::DevEui, v as u64),
-            "keys::AppEui" => text_eui!("keys::AppEui", keys::AppEui, v as u64),
+            "keys::DevEui" => {
+                let wire = (v as u64).to_le_bytes();
+                let there = DevEui::from(keys::DevEui::from(wire));
+                let back = keys::DevEui::from(DevEui::from_value(v as u64));
+                if there.as_wire_bytes() != &wire || back.as_ref() != &wire[..] || there.value() != v as u64 {
+                    return Err(Failure::new("text-roundtrip", json!({"kind":"text","type":"keys::DevEui","value":format!("{:#x}", v as u64)}), format!("DevEui conversions between the key and the frame type change the wire value: {} / {} (want {})", hex(there.as_wire_bytes()), hex(back.as_ref()), hex(&wire))).with_fp("value-conversion/keys::DevEui"));
+                }
+                text_eui!("keys::DevEui", keys::DevEui, v as u64)
+            }
+            "keys::AppEui" => {
+                let wire = (v as u64).to_le_bytes();
+                let there = JoinEui::from(keys::AppEui::from(wire));
+                let back = keys::AppEui::from(JoinEui::from_value(v as u64));
+                if there.as_wire_bytes() != &wire || back.as_ref() != &wire[..] || there.value() != v as u64 {
+                    return Err(Failure::new("text-roundtrip", json!({"kind":"text","type":"keys::AppEui","value":format!("{:#x}", v as u64)}), format!("AppEui/JoinEui conversions change the wire value: {} / {} (want {})", hex(there.as_wire_bytes()), hex(back.as_ref()), hex(&wire))).with_fp("value-conversion/keys::AppEui"));
+                }
+                text_eui!("keys::AppEui", keys::AppEui, v as u64)
+            }
+            "Frequency" => {
+                // channel frequencies: Hz in, 24-bit count of 100 Hz units on the wire (LSB first), Hz out
+                let hz = v as u32;
+                let f = lorawan::parser::Frequency::from_hz(hz);
+                let raw = (hz / 100) & 0xFF_FFFF;
+                let want_wire = [raw as u8, (raw >> 8) as u8, (raw >> 16) as u8];
+                let again = lorawan::parser::Frequency::from_wire_bytes(want_wire);
+                if f.as_wire_bytes() != &want_wire || f.hz() != raw * 100 || again.hz() != raw * 100 || again != f {
+                    return Err(Failure::new("text-roundtrip", json!({"kind":"text","type":"Frequency","value":format!("{:#x}", hz)}), format!("Frequency::from_hz({hz}): wire {} (want {}), hz() {} (want {})", hex(f.as_wire_bytes()), hex(&want_wire), f.hz(), raw * 100)).with_fp("value-conversion/Frequency"));
+                }
+                Ok(())
+            }
             "AppKey" => text_key!("AppKey", keys::AppKey, k),
             "AppSKey" => text_key!("AppSKey", keys::AppSKey, k),
             "NwkSKey" => text_key!("NwkSKey", keys::NwkSKey, k),
@@ -708,8 +772,8 @@ fn check_text(ty: &str, v: u128) -> Result<(), Failure> {
     }
 }
 
-const TEXT_TYPES: [(&str, u32); 18] = [
-    ("DevNonce", 16), ("DevAddr", 32), ("McAddr", 32), ("JoinNonce", 24), ("NetId", 24), ("DevEui", 64), ("JoinEui", 64), ("keys::DevEui", 64), ("keys::AppEui", 64),
+const TEXT_TYPES: [(&str, u32); 19] = [
+    ("Frequency", 32), ("DevNonce", 16), ("DevAddr", 32), ("McAddr", 32), ("JoinNonce", 24), ("NetId", 24), ("DevEui", 64), ("JoinEui", 64), ("keys::DevEui", 64), ("keys::AppEui", 64),
     ("AppKey", 128), ("AppSKey", 128), ("NwkSKey", 128), ("McKey", 128), ("McNetSKey", 128), ("McAppSKey", 128), ("McRootKey", 128), ("McKEKey", 128), ("GenAppKey", 128),
 ];
 
@@ -728,6 +792,7 @@ pub fn replay(case: &Value, kf: &KnownFindings) -> Result<(), Failure> {
             let steps: Vec<(usize, u64)> = case["steps"].as_array().map(|a| a.iter().filter_map(|s| Some((cmd.fields.iter().position(|f| Some(f.setter) == s[0].as_str())?, s[1].as_u64()?))).collect()).unwrap_or_default();
             check_command(cmd, &steps, kf, &mut ex).map(|_| ())
         }
+        Some("req_group") => check_req_group(case["mask"].as_u64().map(|m| m as u8), &case["groups"].as_array().map(|a| a.iter().map(|g| g.as_u64().unwrap_or(0) as u8).collect::<Vec<u8>>()).unwrap_or_default()),
         Some("echo") => check_echo(&unhex(case["data"].as_str().unwrap_or(""))),
         Some("cert_fixed") => check_cert_fixed(case["rx_app_cnt"].as_u64().unwrap_or(0) as u16, unhex(case["versions"].as_str().unwrap_or("")).try_into().unwrap_or([0; 12])),
         Some("group_status") => {
@@ -870,6 +935,22 @@ pub fn run(ctx: &mut Ctx) {
         let mut rng = SplitMix::new(seed ^ 0xC19B ^ ((ti as u64) << 32));
         let mut ex = 0u64;
         if ti == 0 {
+            // McGroupStatusReq assembled group by group: every mask (or none) x every sequence of up to two
+            // groups 0..=255 (the two low bits select the group)
+            for m in 0..=16u16 {
+                let mask = if m == 16 { None } else { Some(m as u8 | ((m as u8) << 4)) };
+                for g1 in 0..=255u16 {
+                    for g2 in [None, Some(g1.wrapping_mul(7) as u8), Some(3u8)] {
+                        st.eval();
+                        st.class("req-group");
+                        st.nt_distinct();
+                        let gs: Vec<u8> = std::iter::once(g1 as u8).chain(g2).collect();
+                        if let Err(f) = check_req_group(mask, &gs) {
+                            st.fail(f);
+                        }
+                    }
+                }
+            }
             for l in 0..=241usize {
                 for _ in 0..4 {
                     st.eval();
